@@ -23,7 +23,7 @@ PROPS = {
              "reachable by remove(file_id) (or is an audited id-allocator/configuration field), DbIndex::remove "
              "reaches every index on every path, and update entry points drop old facts before re-deriving. "
              "Exhaustive over all 15 LuaIndex implementors and their ~90 mutating methods; it is the clause that the "
-             "'new map filled on add but forgotten in remove' family of regressions violates.",
+             "'new map filled on add but forgotten in remove' family of regressions violates. Path-sensitive additions: FileId-keyed maps (R08d) and maps whose values list FileIds (R08i) are reached on every path of remove on which the file was indexed; InFiled entries are filtered per iteration (R08e); reverse maps are complete (R08f); emptied inner collections are pruned under the key that was emptied (R08h); no id derives from a shrinking length (R08g).",
         note="Decides coverage of state by removal, not that the pruning logic inside each remove() is correct "
              "(description loss / module-node leak quoted in the property are value-level logic). Trusted: rustc MIR, "
              "emmyfacts extraction, the exemption table in rules/idx.py (one reason per field); assumes shared borrows do not write."),
@@ -33,7 +33,7 @@ PROPS = {
         text="Decides the clause 'no index field survives clear()': every field any mutating method can populate is "
              "reset by clear (exempt only configuration mirrors/workspace roots), DbIndex::clear reaches every index, "
              "and reindex = take full Vfs file list -> clear -> update_index(that list). Exactly the 'new index field "
-             "that clear forgets' regression named in the property; found two genuine omissions (both fixed).",
+             "that clear forgets' regression named in the property; found two genuine omissions (both fixed). R09e: the file list reindex re-adds is in ascending id order (an enumerate over the id-indexed file_data, or sorted), the order a fresh analysis saw. R09f: setters of the configuration mirrors that clear() keeps write them on every path (no 'unchanged, skip' exit).",
         note="Does not decide observable equality of a reindexed and a fresh analysis. Trusted: rustc MIR, emmyfacts, "
              "exemption table with reasons in rules/idx.py."),
     "C10": dict(
@@ -105,7 +105,7 @@ PROPS["C27"] = dict(
     text="Decides the ordering-domain clause: every notification handler that can mutate the per-document text "
          "state is awaited inline on the single message loop, so their effects are applied in message order; "
          "a handler of that set dispatched through tokio::spawn is reported. R27b: in didOpen/didChange every path from "
-         "recording the text to the end of the handler hands it to update_file_by_uri, except through the workspace filter branch.",
+         "recording the text to the end of the handler hands it to update_file_by_uri, except through the workspace filter branch. R27d: no future spawned from such a handler takes the analysis write lock (its effect on the analysis is applied inline). R27e: the watched-files handler tests is_open_file and updates the analysis under one acquisition of the analysis write lock.",
     note="Interleavings inside one handler and with reload tasks are not decided (C28/C29). Trusted: rustc coroutine MIR, "
          "emmyfacts, call-graph over-approximation.")
 
@@ -149,7 +149,7 @@ PROPS["C19"] = dict(
          "treats an empty (touching) intersection as overlap. This is the structural root of 'a diagnostic at column 0 below "
          "the suppressed line is hidden too'. Also decides two code-scope clauses: the suppression decision never goes through a "
          "position-keyed lookup that lacks the diagnostic code (R19b: other codes are unaffected), and 'suppress every code' is only "
-         "built when the comment has no code list at all (R19c).",
+         "built when the comment has no code list at all (R19c). R19d: the range recorded for a block-scoped disable is the enclosing LuaBlock's own range (provenance of the range operand).",
     note="The construction of each directive's range (+1 line, block range, file scope) is position arithmetic and is not decided.")
 
 PROPS["C23"] = dict(
@@ -210,7 +210,7 @@ PROPS["C32"] = dict(
     technique="hash-order taint of loop iterators that drive keyed writes into the merged JSON configuration",
     text="Decides the determinism clause: no loop that writes the resulting configuration iterates in hash order, so colliding "
          "keys (flat vs nested spelling, value vs prefix) resolve the same way in every run. Found the hash-ordered rebuild in "
-         "to_emmyrc_json (fixed together with the C31 panic).",
+         "to_emmyrc_json (fixed together with the C31 panic). R32b: every configuration handed to merge_values went through FlattenConfigObject::parse(..).to_emmyrc() on every path of the normalising closure; R32c: no conditional collection of parsed configs.",
     note="'Later file wins whichever spelling each file uses' and array de-duplication are value-level semantics and not decided.")
 
 PROPS["C33"] = dict(
@@ -331,6 +331,6 @@ PROPS["C34"] = dict(
     technique="callee / receiver-type scan of the Vfs id lookups + inventory of uri-keyed containers from ADT facts (who-may-key rule)",
     text="Decides the second sentence of the property: a file is identified by its percent-decoded path -- Vfs::file_id and get_file_id go "
          "through uri_to_file_path and a PathBuf-keyed map -- and no other store of per-file state in the analysis or the server is keyed by the "
-         "uri text (3 audited exceptions).",
+         "uri text (3 audited exceptions). R34c, a necessary condition of the first sentence: uri_to_file_path percent-decodes Url::path() exactly once on every path and file_path_to_uri encodes through Url::from_file_path only.",
     note="The first sentence (path -> uri -> path is the identity for all normalized paths, including spaces, %, #, ? and non-ASCII) is "
          "value-level behaviour of the url crate and percent-decoding and is not decided. Trusted: emmyfacts ADT facts, the audited table in rules/c34.py.")
